@@ -10,6 +10,8 @@ import (
 	"text/template/parse"
 
 	"goacheck/an"
+
+	"golang.org/x/tools/go/ssa"
 )
 
 func init() {
@@ -17,7 +19,7 @@ func init() {
 	Registry["C03"] = runC03
 }
 
-const explanationC02 = "Decides structural necessary conditions of C02 (request side): (R02.1) the attribute-name⇄wire-name tables of a mapped attribute stay inverse of each other — every store into one is paired with the swapped store into the other, copies copy both, deletes delete from both, and each lookup direction reads its own table; (R02.2) the request body is the payload minus everything mapped elsewhere — headers, cookies, params, the map-query attribute and the implicit header attributes all reach removeAttribute(s) on the body; (R02.3) the string⇄typed conversion templates use the strconv family, bit size and cast of each primitive type; (R02.4) every transport accessor in the request/response templates is keyed by the element's wire-name field (HTTPName, or CanonicalName for headers; direct indexing of a header map only by CanonicalName) on the writing and on the reading side, never by the attribute or variable name; raw values are tested for presence on the raw variable they were read into; (R02.5) path values are unescaped exactly once (shared with C16/R16.2) and request decoding picks the codec of the announced type (shared with C15/R15.1); (R02.6) template range bodies use their element; required flags are propagated under the key they are looked up with; (R02.7) the request encoder guards a field only against nil, never against a zero value; (R02.8) loops over References apply Inherit and loops over Bases apply Merge in every implementation. NOT decided: equality of the payload received with the payload sent for any design (needs execution of generated code), default injection, escaping of query values."
+const explanationC02 = "Decides structural necessary conditions of C02 (request side): (R02.1) the attribute-name⇄wire-name tables of a mapped attribute stay inverse of each other — every store into one is paired with the swapped store into the other, copies copy both, deletes delete from both, and each lookup direction reads its own table; (R02.2) the request body is the payload minus everything mapped elsewhere — headers, cookies, params, the map-query attribute and the implicit header attributes all reach removeAttribute(s) on the body; (R02.3) the string⇄typed conversion templates use the strconv family, bit size and cast of each primitive type; (R02.4) every transport accessor in the request/response templates is keyed by the element's wire-name field (HTTPName, or CanonicalName for headers; direct indexing of a header map only by CanonicalName) on the writing and on the reading side, never by the attribute or variable name; raw values are tested for presence on the raw variable they were read into; (R02.5) path values are unescaped exactly once (shared with C16/R16.2) and request decoding picks the codec of the announced type (shared with C15/R15.1); (R02.6) template range bodies use their element; required flags are propagated under the key they are looked up with; (R02.7) the request encoder guards a field only against nil, never against a zero value; (R02.8) loops over References apply Inherit and loops over Bases apply Merge in every implementation. (R02.12) the transport struct fields of body types carry omitempty exactly when the attribute may be absent from the wire (path table of the caller of attributeTags). (R02.11) pooled buffers of the runtime packages are Reset by their users (shared with C20). NOT decided: equality of the payload received with the payload sent for any design (needs execution of generated code), default injection, escaping of query values."
 
 const explanationC03 = "Decides structural necessary conditions of C03 (response side): (R03.1) in the response encoder template each response arm writes the status code of its own range element after its headers and before the body, tagged arms compare the tag field with that element's tag value, and the client decoder's case labels come from the same field; the DSL gives a response its default status before the response DSL runs so that an explicit Code() is kept; (R03.2) errors captured by the attribute walkers of the transform generators are tested after each walk; (R03.3) the status vocabulary — every expr.Status* constant has the value of the like-named net/http constant; (R03.4) the response body is the result minus headers and cookies, wire accessors use wire-name fields on both sides (shared with R02.2/R02.4), conversion templates are inverse pairs (R02.3); (R03.5) tag-pointer decisions keep the viewed-result guard; no stale per-iteration state in the response data builder; the client response decoder picks the codec of the announced Content-Type (shared with C15/R15.1); (R03.6) the response encoder guards a field only against nil, never against a zero value. shared R17.5 (the pattern cache is keyed by the pattern: a result is validated against its own pattern). NOT decided: equality of the result received with the result sent (needs execution), streaming order, default injection."
 
@@ -35,6 +37,8 @@ func runC02(c *an.Ctx) string {
 	aliasFlattening(c, "R02.9") // a payload attribute of an alias type keeps its own validation (shared with C04/R04.12)
 	r0210MergeCopies(c, "R02.10")
 	r15RequestEncoder(c) // shared with C15 (rule id R15.2): the client encodes the body with the codec of the type it announces
+	r0212OmitEmpty(c, "R02.12")
+	poolHygiene(c, "R02.11") // shared with C20/R20.9: a pooled request buffer that is not Reset sends the previous request's bytes first
 	return explanationC02
 }
 
@@ -852,4 +856,208 @@ func r0210MergeCopies(c *an.Ctx, rule string) {
 		return true
 	})
 	c.Floor(rule, n, 1, "merges of an inherited mapped attribute")
+}
+
+// topArgs splits the argument list of a call term "callee(a, b(c, d), e)" at the top level.
+func topArgs(term string) []string {
+	i := strings.Index(term, "(")
+	if i < 0 || !strings.HasSuffix(term, ")") {
+		return nil
+	}
+	in := term[i+1 : len(term)-1]
+	var out []string
+	depth, start, inStr := 0, 0, false
+	for k := 0; k < len(in); k++ {
+		ch := in[k]
+		if inStr {
+			if ch == '\\' {
+				k++
+			} else if ch == '"' {
+				inStr = false
+			}
+			continue
+		}
+		switch ch {
+		case '"':
+			inStr = true
+		case '(', '[', '{':
+			depth++
+		case ')', ']', '}':
+			depth--
+		case ',':
+			if depth == 0 {
+				out = append(out, strings.TrimSpace(in[start:k]))
+				start = k + 1
+			}
+		}
+	}
+	return append(out, strings.TrimSpace(in[start:]))
+}
+
+// r0212OmitEmpty (R02.12): the transport struct field of a body type carries `omitempty` exactly when the
+// attribute may be absent from the wire: always for the pointer-everything form (client response / server request
+// bodies), for the use-default form when the attribute is neither required nor defaulted, otherwise when it is not
+// required. The flag is the last argument of attributeTags; the table is taken on every path of the function that
+// calls it (the WalkMappedAttr callback of goTypeDef, or a function extracted from it). A field that is dropped
+// when it holds its zero value although the peer requires it (or kept as a zero although the peer tells "absent"
+// from "zero" by presence) does not travel intact.
+func r0212OmitEmpty(c *an.Ctx, rule string) {
+	g := c.Func("http/codegen", "goTypeDef")
+	if g == nil {
+		c.Add(an.Obligation{Rule: rule, Construct: "http/codegen.goTypeDef", Status: an.LOST, Detail: "function not found"})
+		return
+	}
+	root := c.SSAFunc(g)
+	if root == nil {
+		c.Undecidedf(rule, g.Name, g.Decl.Pos(), "no SSA function")
+		return
+	}
+	calls := func(fn *ssa.Function, name string) bool {
+		for _, b := range fn.Blocks {
+			for _, in := range b.Instrs {
+				if cl, ok := in.(ssa.CallInstruction); ok {
+					if h := cl.Common().StaticCallee(); h != nil && h.Name() == name && h.Pkg == root.Pkg {
+						return true
+					}
+				}
+			}
+		}
+		return false
+	}
+	var site *ssa.Function
+	var cands []*ssa.Function
+	cands = append(cands, root)
+	cands = append(cands, root.AnonFuncs...)
+	for _, m := range root.Pkg.Members {
+		if fn, ok := m.(*ssa.Function); ok && !an.IsReferenceFunc(fn) {
+			cands = append(cands, fn)
+			cands = append(cands, fn.AnonFuncs...)
+		}
+	}
+	for _, fn := range cands {
+		if calls(fn, "attributeTags") {
+			site = fn
+			break
+		}
+	}
+	if site == nil {
+		c.Add(an.Obligation{Rule: rule, Construct: "http/codegen.goTypeDef#attributeTags", Status: an.LOST, Detail: "no call of attributeTags in goTypeDef, its function literals or a function added since the reference tree"})
+		return
+	}
+	t := an.BuildPathTable(site, an.PathOpts{MaxPaths: 4000})
+	c.Stats["paths_enumerated"] += len(t.Paths)
+	c.Stats["functions_tabled"]++
+	// the roles of ptr and useDefault are read off the recursive call goTypeDef(scope, att, ptr, useDefault)
+	ptrT, defT := "", ""
+	for _, p := range t.Paths {
+		for _, e := range p.CallEffects() {
+			if strings.HasPrefix(e, "http/codegen.goTypeDef(") {
+				if a := topArgs(e); len(a) == 4 {
+					ptrT, defT = a[2], a[3]
+				}
+			}
+		}
+	}
+	if ptrT == "" {
+		c.Undecidedf(rule, g.Name, g.Decl.Pos(), "the function that calls attributeTags does not make the recursive goTypeDef call from which the ptr/useDefault roles are read")
+		return
+	}
+	bad, rows := 0, 0
+	for _, p := range t.Paths {
+		flag := ""
+		for _, e := range p.CallEffects() {
+			if strings.HasPrefix(e, "http/codegen.attributeTags(") {
+				if a := topArgs(e); len(a) == 4 {
+					flag = a[3]
+				}
+			}
+		}
+		if flag == "" {
+			continue
+		}
+		val := map[string]*bool{}
+		for _, a := range p.Atoms {
+			v := a.Val
+			switch {
+			case a.Term == ptrT:
+				val["ptr"] = &v
+			case a.Term == defT:
+				val["useDefault"] = &v
+			case strings.Contains(a.Term, ".IsRequired("):
+				val["required"] = &v
+			case strings.Contains(a.Term, ".HasDefaultValue("):
+				val["hasDefault"] = &v
+			}
+		}
+		// normalise the flag term over the facts of the path
+		norm := flag
+		neg := strings.HasPrefix(norm, "!")
+		body := strings.TrimPrefix(norm, "!")
+		switch {
+		case strings.Contains(body, ".IsRequired(") && !strings.Contains(body, "&&") && !strings.Contains(body, "||"):
+			norm = map[bool]string{true: "!required", false: "required"}[neg]
+		case strings.Contains(body, ".HasDefaultValue(") && !strings.Contains(body, "&&") && !strings.Contains(body, "||"):
+			norm = map[bool]string{true: "!hasDefault", false: "hasDefault"}[neg]
+		case norm == ptrT:
+			norm = "ptr"
+		}
+		for _, k := range []string{"required", "hasDefault", "ptr"} {
+			if v := val[k]; v != nil {
+				if norm == k {
+					norm = fmt.Sprint(*v)
+				} else if norm == "!"+k {
+					norm = fmt.Sprint(!*v)
+				}
+			}
+		}
+		// the reference: what the flag must be given the facts of the path ("" = the facts do not determine it)
+		want := ""
+		b := func(k string) (bool, bool) {
+			if v := val[k]; v != nil {
+				return *v, true
+			}
+			return false, false
+		}
+		ptr, okP := b("ptr")
+		ud, okD := b("useDefault")
+		req, okR := b("required")
+		hd, okH := b("hasDefault")
+		switch {
+		case okP && ptr:
+			want = "true"
+		case okP && !ptr && okD && ud:
+			switch {
+			case okR && req:
+				want = "false"
+			case okR && !req && okH:
+				want = fmt.Sprint(!hd)
+			case okR && !req:
+				want = "!hasDefault"
+			case !okR && okH && hd:
+				want = "false"
+			}
+		case okP && !ptr && okD && !ud:
+			if okR {
+				want = fmt.Sprint(!req)
+			} else {
+				want = "!required"
+			}
+		}
+		if want == "" {
+			continue // the path does not fix ptr/useDefault (e.g. the flag is computed by a helper not inlined): not decided here
+		}
+		rows++
+		if norm != want {
+			bad++
+			c.Failf(rule, "http/codegen.goTypeDef#omitempty", p.Pos, "on the path [%s] the field is tagged omitempty=%s, the reference is %s (ptr: always; useDefault: not required and no default; otherwise: not required)", p.GuardString(), flag, want)
+			break
+		}
+	}
+	if rows == 0 {
+		c.Undecidedf(rule, g.Name, g.Decl.Pos(), "no path of the attributeTags caller fixes the ptr/useDefault flags")
+		return
+	}
+	if bad == 0 {
+		c.Okf(rule, "http/codegen.goTypeDef#omitempty", "%d paths to attributeTags: omitempty is set exactly when the attribute may be absent (ptr: always; useDefault: not required and not defaulted; otherwise: not required)", rows)
+	}
 }
